@@ -12,4 +12,17 @@ with open(os.path.join(HERE, "rules", "known_fns.txt"), "w") as fh:
     fh.write("# local functions of barrucadu/resolved the rules were written against (one key per line).\n# a local function NOT listed here is treated as a new helper and expanded at its call sites (rules/inline.py).\n")
     for k in sorted(keys):
         fh.write(k + "\n")
-print(len(keys), "functions")
+params = {}
+for t in facts.EXPECTED_TARGETS:
+    fns = json.load(open(os.path.join(d, t + ".json")))["fns"]
+    for k, rec in fns.items():
+        if rec.get("arg_count") and any(r.get("root") == k and r.get("upvars") for r in fns.values()):
+            names = [None] * (rec["arg_count"] + 1)
+            for v in rec.get("vars", []):
+                pl = v.get("place") or {}
+                if not pl.get("p") and isinstance(pl.get("l"), int) and 1 <= pl["l"] <= rec["arg_count"] and names[pl["l"]] is None:
+                    names[pl["l"]] = v["name"]
+            params[k] = names[1:]
+with open(os.path.join(HERE, "rules", "known_params.json"), "w") as fh:
+    json.dump(params, fh, indent=0, sort_keys=True)
+print(len(keys), "functions;", len(params), "functions with captured parameters")
